@@ -192,7 +192,10 @@ def panic_sites(gen: Gen, f: dict) -> List[Site]:
                 out.append(Site(fn, "format_ident!", _fmt_ident_sig(e), _first_at(e), H.brief(e, 120), _fmt_ident_auto(e, f["body"]["tree"])))
                 return
             if nm == "parse_quote":
-                out.append(Site(fn, "parse_quote!", _parse_quote_sig(e), _first_at(e), H.brief(e, 120)))
+                toks_ = quote_tokens(e)
+                const_tpl = bool(toks_) and not any(t_[0] == "interp" for t_ in toks_)
+                out.append(Site(fn, "parse_quote!", _parse_quote_sig(e), _first_at(e), H.brief(e, 120),
+                                "parse_quote! of a constant token template: it parses the same tokens on every expansion, so it fails for every input or for none" if const_tpl else None))
                 return
             if nm in ("quote", "quote_spanned", "format", "format_args", "write", "writeln", "matches", "vec", "parse_macro_input", "custom_keyword", "parenthesized"):
                 # template construction / parsing helpers: look at interpolated expressions only
@@ -798,6 +801,10 @@ class Casing:
         self.from_str = None
         self.dispatch: Dict[str, List[str]] = {}     # CaseStyle variant -> ordered callees
         self.parse: Dict[str, str] = {}              # style string -> CaseStyle variant
+        self.name_fns: List[dict] = []
+        self.casing_points: List[dict] = []
+        self.preferred: List[dict] = []
+        self.serializations: List[dict] = []
         if self.convert is None:
             return
         for prm in self.convert["body"]["params"]:
@@ -805,6 +812,16 @@ class Casing:
             m = re.match(r"core::option::Option<(.+)>$", t)
             if m:
                 self.style_ty = m.group(1)
+        if self.style_ty is None:
+            # the conversion may take the style itself (`CaseStyle::apply(self, ..)`): the type its dispatching match scrutinises
+            best = None
+            for n in H.walk(self.convert["body"]["tree"]):
+                if n.get("k") == "match" and isinstance(n.get("scrut_ty"), str):
+                    k_ = len(set(c for c in case_calls(n["arms"]) if c.startswith("to_") and "_case" in c))
+                    if k_ >= 3 and (best is None or k_ > best[0]):
+                        best = (k_, n["scrut_ty"].lstrip("&"))
+            if best:
+                self.style_ty = best[1]
         if self.style_ty is None:
             return
         # CaseStyle variant -> callees
@@ -848,9 +865,15 @@ class Casing:
         # name functions: take Option<style> and are not the convert fn
         opt = "core::option::Option<%s>" % self.style_ty
         self.name_fns = [f for p, f in gen.fns.items() if f is not self.convert and any((prm.get("ty") or "") == opt for prm in f["body"]["params"])]
-        self.casing_points = [f for f in self.name_fns if self.convert["path"] in gen._edges[f["path"]] or any(i in gen._edges[f["path"]] for i in [self.convert["path"]])]
-        self.preferred = [f for f in self.name_fns if f not in self.casing_points and f["sig"]["output"]["s"].endswith("LitStr") and not f["sig"]["output"]["s"].startswith("alloc::vec")]
-        self.serializations = [f for f in self.name_fns if f not in self.casing_points and f["sig"]["output"]["s"].startswith("alloc::vec::Vec<")]
+        # roles by signature (robust to extra layers between the name functions and the heck calls): the preferred-name function
+        # returns one LitStr and takes the prefix; the serializations function returns Vec<LitStr>; every other function taking
+        # the style is part of the conversion machinery
+        def out_ty(f_):
+            return f_["sig"]["output"]["s"]
+        self.serializations = [f for f in self.name_fns if out_ty(f).startswith("alloc::vec::Vec<")]
+        self.preferred = [f for f in self.name_fns if f not in self.serializations and out_ty(f).endswith("LitStr")
+                          and any("LitStr" in (prm.get("ty") or "") for prm in f["body"]["params"])]
+        self.casing_points = [f for f in self.name_fns if f not in self.preferred and f not in self.serializations]
 
 
 def resolve_local(fn_tree: Any, e: Any, depth: int = 4) -> Any:
